@@ -36,11 +36,11 @@ GROUPS = {
 }
 # families: which groups feed which real selectors
 FAMILIES = {
-    "plain": dict(shards=[["rr", "random", "modhash"], ["conhash", "conhashd"]], quick_shards=[["rr", "random"], ["modhash", "conhash"]],
+    "plain": dict(shards=[["rr"], ["random"], ["modhash"], ["conhash"], ["conhashd"]], quick_shards=[["rr", "random"], ["modhash", "conhash"]],
                   wt="0", k={"rr": 8, "random": 12, "modhash": 8, "conhash": 12}),
-    "weighted": dict(shards=[["rr"], ["random", "modhash"]], wt="1",
+    "weighted": dict(shards=[["rr"], ["random"], ["modhash"]], quick_shards=[["rr"], ["random", "modhash"]], wt="1",
                      k={"rr": 40, "random": 16, "modhash": 32, "conhash": 16}),
-    "conhash-weights": dict(shards=[["conhash", "conhashd"]], wt="1",
+    "conhash-weights": dict(shards=[["conhash"], ["conhashd"]], quick_shards=[["conhash", "conhashd"]], wt="1",
                             k={"rr": 8, "random": 8, "modhash": 8, "conhash": 32}),
 }
 
@@ -101,17 +101,17 @@ VERDICT_RE = re.compile(r'<<\s*(\d+),\s*<<\s*(\d+),\s*"([^"]*)",\s*(\d+),\s*"([^
 WVERDICT_RE = re.compile(r'<<\s*(\d+),\s*<<\s*"([^"]*)",\s*"([^"]*)"\s*>>\s*>>')
 
 
-def oracle(ctx, name, scripts_text, obs, wrecs):
+def oracle(ctx, name, scripts_text, obs_lines, wrecs):
     """Run Oracle_Selector; returns ({obs index -> (pstep, pclass, rstep, rclass)}, {wrec index -> (p, r)}, TLCResult)."""
     r = tlc_run(ctx, SPEC, "Oracle_Selector", cfg=ORACLE_CFG, workers=1, timeout=1500, name="oracle-" + name,
-                extra_files={"scripts.ndjson": scripts_text, "obs.ndjson": dump_nd(obs), "wrecs.ndjson": dump_nd(wrecs),
+                extra_files={"scripts.ndjson": scripts_text, "obs.ndjson": "".join(obs_lines), "wrecs.ndjson": dump_nd(wrecs),
                              ORACLE_CFG: tmpl("Oracle.cfg.tmpl", RFULL="FALSE" if ctx.quick else "TRUE")})
     flat = re.sub(r"<<\s+", "<<", " ".join(r.out.split()))
     m = re.search(r'<<"STATS", (\d+), (\d+), (\d+)>>', flat)
     if not r.success or not m or '<<"NOTOK",' not in flat or '<<"WNOTOK",' not in flat:
         raise Inconclusive("oracle run %s did not complete:\n%s" % (name, "\n".join(r.out.splitlines()[-40:])))
-    if int(m.group(2)) != len(obs) or int(m.group(3)) != len(wrecs):
-        raise Inconclusive("oracle %s read %s records, expected %d/%d" % (name, m.groups(), len(obs), len(wrecs)))
+    if int(m.group(2)) != len(obs_lines) or int(m.group(3)) != len(wrecs):
+        raise Inconclusive("oracle %s read %s records, expected %d/%d" % (name, m.groups(), len(obs_lines), len(wrecs)))
     a = flat.index('<<"NOTOK",')
     b = flat.index('<<"WNOTOK",')
     c = flat.find("Computing initial states", b)
@@ -164,6 +164,20 @@ def op_detail(ops, step):
     return "Refresh"
 
 
+def removal_detail(ops, step, sel):
+    """For a non-member result: how the returned host left the set (names the input class in the signature)."""
+    mem = {x["h"] for x in members_after(ops[:step])}
+    alien = next((x for x in sel if x not in mem and x != 0), None)
+    if alien is None or alien < 0:
+        return "alien-endpoint"
+    for k in range(step, 0, -1):
+        before = {x["h"] for x in members_after(ops[:k - 1])}
+        after = {x["h"] for x in members_after(ops[:k])}
+        if alien in before and alien not in after:
+            return "host-left-by-" + op_detail(ops, k)
+    return "host-never-added"
+
+
 def op_str(op):
     if op["o"] == "F":
         return "Refresh([%s])" % ", ".join("{h%d,w=%d}" % (e["h"], e["w"]) for e in op["l"])
@@ -213,9 +227,9 @@ def run(ctx):
         {"plain": [("plain3", 4, None), ("plain4", 3, None), ("plain4", 8, 200)],
          "weighted": [("weighted", 3, None)],
          "conhash-weights": [("conhash-weights", 3, None)]},
-        {"plain": [("plain3", 5, None), ("plain4", 4, None), ("plain4", 9, 4000)],
+        {"plain": [("plain3", 5, None), ("plain4", 4, None), ("plain4", 9, 3000)],
          "weighted": [("weighted", 3, None), ("weighted-canon", 4, None), ("weighted", 7, 3000)],
-         "conhash-weights": [("conhash-weights", 4, None), ("conhash-weights-free", 7, 3000)]})
+         "conhash-weights": [("conhash-weights-free", 3, None), ("conhash-weights-free", 7, 5000)]})
     gen_f = {}
     for fam, gl in plan.items():
         for k, (g, d, sim) in enumerate(gl):
@@ -305,7 +319,8 @@ def run(ctx):
     ctx.log("histories generated", gen_stats)
 
     hdir = ctx.sub("b2")
-    shard_jobs = []     # (name, fam, scripts_text, obs list)
+    shard_jobs = []     # (name, fam, scripts_text, obs lines (one JSON record per line, parsed on demand))
+    nsel = 0
     for fam, scripts in fam_scripts.items():
         F = FAMILIES[fam]
         sp = os.path.join(hdir, "scripts-%s.ndjson" % fam)
@@ -313,15 +328,17 @@ def run(ctx):
         open(sp, "w").write(stext)
         shards = F.get("quick_shards", F["shards"]) if ctx.quick else F["shards"]
         strats = [s for sh_ in shards for s in sh_]
-        sh([exe, "hist", "-in", sp, "-out", os.path.join(hdir, "obs-" + fam), "-strats", ",".join(strats), "-wt", F["wt"],
-            "-k-rr", str(F["k"]["rr"]), "-k-random", str(F["k"]["random"]), "-k-modhash", str(F["k"]["modhash"]),
-            "-k-conhash", str(F["k"]["conhash"]), "-par", "12"], timeout=1500)
+        rc, so, se = sh([exe, "hist", "-in", sp, "-out", os.path.join(hdir, "obs-" + fam), "-strats", ",".join(strats), "-wt", F["wt"],
+                         "-k-rr", str(F["k"]["rr"]), "-k-random", str(F["k"]["random"]), "-k-modhash", str(F["k"]["modhash"]),
+                         "-k-conhash", str(F["k"]["conhash"]), "-par", "12"], timeout=1500)
+        nsel += json.loads(so.strip().splitlines()[-1])["selections"]
         for sh_ in shards:
-            obs = []
+            lines = []
             for s in sh_:
-                obs.extend(read_nd(os.path.join(hdir, "obs-%s.%s" % (fam, s))))
-            shard_jobs.append(("%s-%s" % (fam, "+".join(sh_)), fam, stext, obs))
-    ctx.log("histories driven: %d records" % sum(len(j[3]) for j in shard_jobs))
+                with open(os.path.join(hdir, "obs-%s.%s" % (fam, s))) as f:
+                    lines.extend(f.readlines())
+            shard_jobs.append(("%s-%s" % (fam, "+".join(sh_)), fam, stext, lines))
+    ctx.log("histories driven: %d records, %d selections" % (sum(len(j[3]) for j in shard_jobs), nsel))
 
     # self-test material: corrupted copies of accepted-looking records are appended to the first shard
     st_plan = []
@@ -329,7 +346,8 @@ def run(ctx):
     scripts0 = fam_scripts[fam0]
 
     def find_rec(pred):
-        for r in obs0:
+        for line in obs0:
+            r = json.loads(line)
             if not r["hang"] and len(r["obs"]) == len(scripts0[r["i"]]["ops"]) and pred(r):
                 return r
         return None
@@ -346,7 +364,7 @@ def run(ctx):
     c3["obs"][-1]["sel"] = [0] * len(c3["obs"][-1]["sel"])      # errors although endpoints are eligible
     st_plan = [("non-member", c1, "non-member"), ("rotation-broken", c2, "rotation"), ("spurious-error", c3, "error-though-eligible")]
     n0 = len(obs0)
-    obs0_ext = obs0 + [c for _, c, _ in st_plan]
+    obs0_ext = obs0 + [json.dumps(c, separators=(",", ":")) + "\n" for _, c, _ in st_plan]
     wbase = next((i for i, r in enumerate(wrecs) if r["p"] == "" and len(r["w"]) >= 2 and min(r["w"]) > 0
                   and len(set(r["out"])) >= 2), None)
     if wbase is None:
@@ -356,7 +374,7 @@ def run(ctx):
     wrecs_ext = wrecs + [wc]
 
     orc_f = [None] * len(shard_jobs)
-    for k in sorted(range(len(shard_jobs)), key=lambda k: -sum(len(o["sel"]) for r in shard_jobs[k][3] for o in r["obs"])):
+    for k in sorted(range(len(shard_jobs)), key=lambda k: -sum(len(x) for x in shard_jobs[k][3])):
         name, fam, stext, obs = shard_jobs[k]           # the most expensive shard first
         orc_f[k] = pool.submit(oracle, ctx, name, stext, obs0_ext if k == 0 else obs, wrecs_ext if k == len(shard_jobs) - 1 else [])
 
@@ -443,7 +461,6 @@ def run(ctx):
 
     # ---- collect: oracle verdicts
     judged = 0
-    nsel = 0
     robs = {}
     distinct = set()
     st_res = {}
@@ -460,11 +477,8 @@ def run(ctx):
             st_res["weight-list-slot-moved"] = "rejected (%s)" % got[0] if got and got[0] == "count" else "ACCEPTED/%s" % (got,)
             wbad_all = wbad
         judged += len(obs)
-        for rec in obs:
-            nsel += sum(len(o["sel"]) for o in rec["obs"])
-            distinct.add((rec["s"], rec["wt"], fam, rec["i"]))
         for idx, (ps, pc, rs, rc) in sorted(bad.items(), key=lambda kv: (kv[1][0], kv[0])):   # shortest history first
-            rec = obs[idx]
+            rec = json.loads(obs[idx])
             ops = scripts[rec["i"]]["ops"]
             sn = sname(rec["s"], rec["wt"])
             if pc != "ok":
@@ -481,7 +495,9 @@ def run(ctx):
                 elif pc in ("window-too-short", "malformed", "no-observation"):
                     raise Inconclusive("oracle could not judge record %d of %s (%s)" % (idx, name, pc))
                 else:
-                    ctx.violate("C13:%s:%s:after-%s" % (sn, pc, op_detail(ops, ps) if pc != "hang" else "history"),
+                    detail = ("history" if pc == "hang" else removal_detail(ops, ps, o.get("sel", [])) if pc == "non-member"
+                              else "after-" + op_detail(ops, ps))
+                    ctx.violate("C13:%s:%s:%s" % (sn, pc, detail),
                                 "%s selector (%s): %s after %s; members per specification: %s; selections seen: %s"
                                 % (sn, rec["s"], pc, "; ".join(hist), members_after(ops[:ps]), o.get("sel")), replay)
             if rc != "ok":
@@ -575,7 +591,7 @@ def run(ctx):
     pool.shutdown(wait=True)
 
     # ---- samples
-    ex = next((r for r in shard_jobs[0][3] if r["s"] == "rr" and len(r["obs"]) >= 3), None)
+    ex = next((r for r in map(json.loads, shard_jobs[0][3][:2000]) if r["s"] == "rr" and len(r["obs"]) >= 3), None)
     if ex:
         samples.append({"kind": "judged history (rr)", "ops": [op_str(o) for o in fam_scripts[shard_jobs[0][1]][ex["i"]]["ops"]],
                         "selections_after_each_op": [o["sel"] for o in ex["obs"]]})
@@ -606,7 +622,7 @@ def run(ctx):
         "refinement_observations": robs,
         "selftest_corrupted_observations": st_res,
         "evaluations": nsel + len(wrecs) + tevents,
-        "distinct_nontrivial": len(distinct) + len({json.dumps(r["w"]) + json.dumps(r["ord"]) for r in wrecs}) + truns,
+        "distinct_nontrivial": judged + len({json.dumps(r["w"]) + json.dumps(r["ord"]) for r in wrecs}) + truns,
         "rule": "every history of the listed depth over the group's operation alphabet (TLC BFS) and simulated deeper ones, applied to "
                 "fresh real selectors (rr, random, modhash, conhash ketama/default; plain and static-weight mode), a window of "
                 "selections after every operation judged by Oracle_Selector; weight vectors (all of length<=2 over a boundary set, "
